@@ -47,7 +47,7 @@ private theorem abs_add3 (a b c d : Rat) : |a + b + c + d| ≤ |a| + |b| + |c| +
   linarith
 
 /-- After the two roundings of `pct1`: `|p − P| ≤ 3u·P` (P = 100·q0). -/
-private theorem err_p (u q0 q p d1 d2 : Rat) (hu : 0 ≤ u) (hu3 : u ≤ 1 / 1000) (hq0 : 0 ≤ q0)
+theorem err_p (u q0 q p d1 d2 : Rat) (hu : 0 ≤ u) (hu3 : u ≤ 1 / 1000) (hq0 : 0 ≤ q0)
     (e1 : q = q0 + d1) (b1 : |d1| ≤ u * q0) (e2 : p = q * 100 + d2) (b2 : |d2| ≤ u * |q * 100|) :
     |p - 100 * q0| ≤ 3 * u * (100 * q0) := by
   have hq : |q| ≤ q0 + u * q0 := by
